@@ -157,6 +157,12 @@ fn inputs(cfg: &RunCfg) -> Vec<Input> {
         label: "header-forms".into(),
         text: "Hdr-Mod { iso(1) 2 } DEFINITIONS AUTOMATIC TAGS EXTENSIBILITY IMPLIED ::= BEGIN\nEXPORTS ALL;\nIMPORTS T1, val1 FROM Other-Mod { 1 2 3 } U2 FROM Third-Mod;\nA ::= INTEGER\nEND\nOther-Mod { 1 2 3 } DEFINITIONS EXPLICIT TAGS ::= BEGIN\nT1 ::= BOOLEAN\nval1 INTEGER ::= 4\nEND\nThird-Mod DEFINITIONS IMPLICIT TAGS ::= BEGIN\nU2 ::= NULL\nEND\n".into(),
     });
+    // IMPORTS: every pairing of {module reference with / without object identifier} with {next group starts with a
+    // type / a value reference}, groups of one and of several symbols
+    out.push(Input {
+        label: "imports-forms".into(),
+        text: "Imp-Mod DEFINITIONS AUTOMATIC TAGS ::= BEGIN\nIMPORTS T1 FROM B-Mod limit, U2 FROM C-Mod v3, W4 FROM D-Mod { 1 2 4 } x5 FROM E-Mod Y6 FROM F-Mod { 1 2 6 } Z7, z8 FROM G-Mod;\nV ::= SEQUENCE { t T1, u U2, w W4, y Y6, z Z7, n INTEGER (0..limit), m INTEGER (v3..x5), k INTEGER (z8) }\nEND\nB-Mod DEFINITIONS ::= BEGIN\nT1 ::= INTEGER\nEND\nC-Mod DEFINITIONS ::= BEGIN\nU2 ::= BOOLEAN\nlimit INTEGER ::= 5\nEND\nD-Mod { 1 2 4 } DEFINITIONS ::= BEGIN\nW4 ::= NULL\nv3 INTEGER ::= 3\nEND\nE-Mod DEFINITIONS ::= BEGIN\nx5 INTEGER ::= 9\nEND\nF-Mod { 1 2 6 } DEFINITIONS ::= BEGIN\nY6 ::= OCTET STRING\nEND\nG-Mod DEFINITIONS ::= BEGIN\nZ7 ::= BOOLEAN\nz8 INTEGER ::= 8\nEND\n".into(),
+    });
     for (k, chunk) in ASSIGNMENTS.chunks(3).enumerate() {
         let picks: Vec<usize> = (0..chunk.len()).map(|i| k * 3 + i).collect();
         out.push(Input { label: format!("pool-{k}"), text: build_module(&format!("Pool{k}"), &picks, 100 + k, false, false).text });
